@@ -218,6 +218,14 @@ def main():
     nat("sec_scope_security", sec, r"INTEGRITY_SECURITY_HEADER = (0x[0-9a-fA-F]+);")
     m = re.search(r"impl Serialize for BibSecurityContextParameter \{(.*?)\n\}", sec, flags=re.S)
     txt("sec_params_serialize", re.sub(r"\s+", " ", strip_comments(m.group(1))).strip() if m else None)
+    # ---- C20: command-line tool
+    mainrs = src("main.rs")
+    for fn in ["manifest_to_primary", "generate_bundle", "encode", "encode_from_stdin", "decode", "decode_from_stdin", "buf_to_bundle"]:
+        txt("cli_" + fn, fn_body(mainrs, fn))
+    mb = fn_body(mainrs, "main", r'feature = "binary-build"\)\)\]\s*') or ""
+    for cmd in ["rnd", "encode", "decode", "dtntime", "d2u"]:
+        m = re.search(r'"' + cmd + r'" => \{(.*?)\} (?="[a-z0-9]+" => \{|_ =>)', mb, flags=re.S)
+        txt("cli_cmd_" + cmd, m.group(1).strip() if m else None)
     # ---- emit
     lines = ["/- GENERATED by tools/extract.py from /repo/src — do not edit. -/", "namespace Bp7.Extracted", ""]
     for name, kind, v in facts:
